@@ -19,3 +19,5 @@ func verifRespStatus() int                               { return 0 }
 func verifRespWriteCount() int                           { return 0 }
 func verifRespBodyIsError(code string) bool              { return false }
 func verifRespBodyIsProof() bool                         { return false }
+func verifNoLocksHeld() bool                             { return true }
+func verifBodyWellFormed() bool                          { return true }
